@@ -713,15 +713,41 @@ impl Quil for Expression {
                 expression,
             }) => {
                 write!(f, "{operator}")?;
-                format_inner_expression(f, fall_back_to_debug, expression)
+                if matches!(operator, PrefixOperator::Minus) && starts_with_minus(expression) {
+                    // `--x` is not valid Quil; write `-(-x)`.
+                    write!(f, "(")?;
+                    expression.write(f, fall_back_to_debug)?;
+                    write!(f, ")")?;
+                    Ok(())
+                } else {
+                    format_inner_expression(f, fall_back_to_debug, expression)
+                }
             }
             Variable(identifier) => write!(f, "%{identifier}").map_err(Into::into),
         }
     }
 }
 
+/// Whether the Quil text of this expression starts with a minus sign.
+fn starts_with_minus(expression: &Expression) -> bool {
+    match expression {
+        Expression::Number(value) => format_complex(value).starts_with('-'),
+        Expression::Prefix(PrefixExpression {
+            operator: PrefixOperator::Minus,
+            ..
+        }) => true,
+        // A prefix plus is not written at all.
+        Expression::Prefix(PrefixExpression {
+            operator: PrefixOperator::Plus,
+            expression,
+        }) => starts_with_minus(expression),
+        _ => false,
+    }
+}
+
 /// Utility function to wrap infix expressions that are part of an expression in parentheses, so
-/// that correct precedence rules are enforced.
+/// that correct precedence rules are enforced.  A number with both a real and an imaginary part is
+/// written as a sum (`1+2.0i`), so it needs the parentheses as well.
 fn format_inner_expression(
     f: &mut impl std::fmt::Write,
     fall_back_to_debug: bool,
@@ -739,6 +765,9 @@ fn format_inner_expression(
             format_inner_expression(f, fall_back_to_debug, right)?;
             write!(f, ")")?;
             Ok(())
+        }
+        Expression::Number(value) if value.re != 0f64 && value.im != 0f64 => {
+            write!(f, "({})", format_complex(value)).map_err(Into::into)
         }
         _ => expression.write(f, fall_back_to_debug),
     }
